@@ -14,6 +14,11 @@ CLAIMS = {
   note=TB + "Float multipleOf is in scope only for dyadic rationals (convention F); other classes are known findings (known_findings.json).",
   technique="Lean 4 theorems over Rat/Int (linarith, omega-free case analysis) + exhaustive function-level and sampled program-level correspondence",
   ref="§3 C05"),
+ "C15": dict(
+  text="Theorems (all integral bounds within 2^53 in every presence/kind combination, all int64 values): the model's getMinIntType equals the integer-level selection on the effective bounds (getMinIntType_int); a cleared bound is implied by the chosen type (rmLo_implied, rmHi_implied); the type holds every admitted value (kind_fits, type_fits) and is the narrowest of its signedness (kind_minimal_*); acceptance with the flag = admitted AND representable (accOn_iff_spec); and the executable acceptance functions agree with and without the flag (same_accepts). The unrestricted statement is false by design of the feature (KF_uint64_wider, known finding K14). Tie: the real PrimitiveTypeFromJSONSchemaType is compared with the model and judged directly on bounds on/next to/between all type limits; flag-on and flag-off programs are compiled and run on the same boundary documents.",
+  note=TB + "Scope F15: integral bounds with |b| <= 2^53 (beyond that float64 rounding absorbs the +-1 adjustments; skipped and counted). min-sized-ints combined with anyOf is outside the model (pointer aliasing of branch nodes) and reported as unsupported.",
+  technique="Lean 4 theorems over Int (omega) with a proved Rat-to-Int bridge + function-level and flag-on/flag-off program-level correspondence",
+  ref="§3 C15"),
 }
 NA_PENDING = "check not built yet in this session (work in progress; see DESIGN.md §7)"
 ids = [json.loads(l)["id"] for l in open('/verif/properties.jsonl')]
